@@ -61,6 +61,7 @@ PLAN = {
     },
     "C04": {
         "level": "exploration",
+        "contracts": ["contracts.fuzz"],
         "bounded": ["bounded.c04"],
     },
     "C05": {
@@ -179,7 +180,9 @@ MANIFEST_TEXT = {
         "technique": "contract-based deductive verification of NonTerminalNode.fuzz (generator branch) Grammar.generate and replace_multiple (generator path) + bounded run-time contract check with a recomputing oracle",
     },
     "C04": {
-        "text": "Bounded stand-in, not a proof: the postcondition of Grammar.parse_forest / Fandango.parse (every yielded tree is a "
+        "text": "One proved side lemma: IterativeParser._collapse returns trees without internal helper symbols (<__...>): a helper "
+                "node is replaced by its collapsed children, any other node is rebuilt with its own symbol over its collapsed "
+                "children (recursion by callee contract). Everything else is a bounded stand-in, not a proof: the postcondition of Grammar.parse_forest / Fandango.parse (every yielded tree is a "
                 "derivation per an independent checker over the grammar IR, no helper symbols, serialisation == input, API trees "
                 "satisfy constraints re-evaluated by fresh constraint objects) is checked at run time on the real functions over 29 "
                 "specs x (words of an independently enumerated language, single-edit near misses).",
